@@ -41,6 +41,8 @@ def main():
         infra = 'harness exception:\n' + traceback.format_exc()
     finally:
         ctx.close()
+    if infra is None and ctx.model_unavailable:
+        infra = 'model runner / correspondence machinery broke: ' + ctx.model_unavailable
     spec = getattr(mod, 'SPEC', {})
     lib.write_evidence(ctx, build, spec)
 
